@@ -6,6 +6,7 @@ SCR="$(mktemp -d /tmp/verifren.XXXXXX)"; trap 'rm -rf "$SCR"' EXIT
 mkdir -p "$SCR/repo" "$SCR/ev"
 (cd /repo && git ls-files -z --cached --others --exclude-standard | tar --null -T - -cf - 2>/dev/null) | tar -xf - -C "$SCR/repo"
 export GOFLAGS=-mod=mod GOPROXY=off GOSUMDB=off GOTOOLCHAIN=local GOWORK=off CGO_ENABLED=0
+. /verif/tools/gocache_env.sh
 [ -x "$HERE/bin/renamelocals" ] || (cd "$HERE/checker" && go build -o "$HERE/bin/renamelocals" ./cmd_renamelocals) || exit 2
 "$HERE/bin/renamelocals" "$SCR/repo" && "$HERE/bin/renamelocals" "$SCR/repo/godev" || exit 2
 for m in . godev; do (cd "$SCR/repo/$m" && go build ./...) || { echo "renamed tree does not build"; exit 2; }; done
